@@ -6,5 +6,5 @@ CONSTANTS
   Export = FALSE
 INIT Init
 NEXT Next
-INVARIANTS TrapdoorOK AllOpen TrapdoorPathAgrees Binding SingleChange EquivExported HashBinding ExportOK
+INVARIANTS TrapdoorOK AllOpen TrapdoorPathAgrees Binding SingleChange EquivExported HashBinding ElGamalBinding ExportOK
 CHECK_DEADLOCK FALSE
